@@ -29,7 +29,7 @@ CHECKS = {
         "note": "Trusted: the reference layout model (props/c03_model_layout.py, section RefLayout). Modelled as observed and consistent between loader and dumper: TypedDict fields ordered by name in list layouts, containers of nested paths always dumped / required. Two open known findings (container skeleton in collected extras - pinned by the suite; omit_default compares the dumped value).",
     },
     "C10": {
-        "technique": "bounded exhaustive enumeration against a reference evaluator + property-based sampling: every enumerated predicate expression (atoms, chains <= 3, negations, binary combinations) is evaluated on every location stack of a bounded universe and compared with an independent evaluator written from the tutorial; documented identities and boolean laws compared as truth tables; deeper expressions / stacks sampled by Hypothesis; end-to-end part with marker loaders and a spy provider Plus an exhaustive sweep of the facade factories that take several predicates (enum_by_name, flag_by_member_names, enum_by_value x every list of 0-3 predicates over 16 atoms).",
+        "technique": "bounded exhaustive enumeration against a reference evaluator + property-based sampling: every enumerated predicate expression (atoms, chains <= 3, negations, binary combinations) is evaluated on every location stack of a bounded universe and compared with an independent evaluator written from the tutorial; documented identities and boolean laws compared as truth tables; deeper expressions / stacks sampled by Hypothesis; end-to-end part with marker loaders and a spy provider Plus an exhaustive sweep of the facade factories that take several predicates (enum_by_name, flag_by_member_names, enum_by_value x every list of 0-3 predicates over 16 atoms). Field ids include non-ASCII identifiers of many scripts; regex predicates are derived from each field id by a small grammar (classes, boundaries, case-insensitive groups, near misses) and may be compiled re.Pattern objects with flags.",
         "text": "Exploration with an exhaustive part (quick: 3 814 expressions x 1 329 stacks; thorough: 8 831 x 21 714) plus sampled and end-to-end parts; documented examples are fixed probes.",
         "note": "Trusted: the reference evaluator (vkit/c10_helpers.py). Unspecified (counted): bare list/dict predicates vs parametrised location types, abstract classes vs parametrised generics, strings on function-field locations; re.Pattern predicates and data protocols are not generated.",
         "engine": "enumeration+hypothesis",
@@ -58,7 +58,7 @@ CHECKS = {
         "engine": "hypothesis-stateful",
     },
     "C19": {
-        "technique": "dictionary-seeded property-based testing / fuzzing of the three code generators: Hypothesis draws field ids, class / stub names, mapped keys and defaults from hostile dictionaries (internal identifiers, builtins, metacharacters, code fragments calling a canary) plus st.text; oracle = generation succeeds, layout behaviour, canary never hit, stub signature preserved Converter cases also carry link_function functions with hostile __name__ (keywords, names of generated variables, pairs colliding after the g_ prefix, empty) and a nested pair of models named like the outer pair; TypedDict keys include Python keywords.",
+        "technique": "dictionary-seeded property-based testing / fuzzing of the three code generators: Hypothesis draws field ids, class / stub names, mapped keys and defaults from hostile dictionaries (internal identifiers, builtins, metacharacters, code fragments calling a canary) plus st.text; oracle = generation succeeds, layout behaviour, canary never hit, stub signature preserved Converter cases also carry link_function functions with hostile __name__ (keywords, names of generated variables, pairs colliding after the g_ prefix, empty) and a nested pair of models named like the outer pair; TypedDict keys include Python keywords. link_constant values come from a palette of scalars, subclass instances with hostile repr, mixin enum members and containers of them.",
         "text": "Exploration of model loader, model dumper, get_converter and impl_converter generation over hostile names and keys; any evaluation of injected text is observed through a canary module.",
         "note": "Trusted: the canary (vkit_canary) and the flat layout reference; open known finding C19-nfkc-typeddict-key is excluded by construction for ~97% of the budget and still probed.",
     },
@@ -73,7 +73,7 @@ CHECKS = {
         "note": "Trusted: the rewrite catalogue (each rewrite is meaning-preserving by Python typing semantics); normalize_type is the only non-facade observation point, as the property says.",
     },
     "C20": {
-        "technique": "property-based testing: generated load / dump / collected-extras / convert calls made twice on the same argument; deep before/after snapshots and a type-directed identity (id()) scan of mutable containers across both results and the argument Converter twins share the source's class environment and change dict fields as well (Optional value type / abstract Mapping origin); dump and load cases also run under non-default representations (flag_by_member_names, enum_by_name, timestamps). Plus load A, load B, load A again over unions with overlapping cases, and a probe that the sharing of a mutable default VALUE does not depend on its size (0..1000 elements).",
+        "technique": "property-based testing: generated load / dump / collected-extras / convert calls made twice on the same argument; deep before/after snapshots and a type-directed identity (id()) scan of mutable containers across both results and the argument Converter twins share the source's class environment and change dict fields as well (Optional value type / abstract Mapping origin); dump and load cases also run under non-default representations (flag_by_member_names, enum_by_name, timestamps). Plus load A, load B, load A again over unions with overlapping cases, and a probe that the sharing of a mutable default VALUE does not depend on its size (0..1000 elements). Plus extra_out cases (typed / Any extra field, extractor handing out a live mapping, two fields x all / some / none of the own keys): the dumped dict is a new object in every call.",
         "text": "Exploration: arguments are never mutated, repeated calls give equal results, and no mutable container adaptix builds is shared between two results or with the argument (except below Any/object positions).",
         "note": "Trusted: structural snapshot (canon) and the type-directed walk that knows the Any/object positions; one-shot inputs exempt.",
     },
@@ -88,7 +88,7 @@ CHECKS = {
         "note": "Trusted: the reference interpreter (vkit/refload.py, vkit/tspec.ref_dump) transcribed from specific-types-behavior.rst; Python constructors as the lax-coercion oracle.",
     },
     "C05": {
-        "technique": "property-based fault injection: Hypothesis-generated nested types/values/model layouts; a generated antichain of fault sites of the reference dump is corrupted; the oracle compares the multiset of absolute trails of reported leaves with the planted set (ALL), membership (FIRST), absence of trails (DISABLE) and input_value reachability Plus policy-focused cases (forbidding / list-layout / flattened+forbidding models below containers).",
+        "technique": "property-based fault injection: Hypothesis-generated nested types/values/model layouts; a generated antichain of fault sites of the reference dump is corrupted; the oracle compares the multiset of absolute trails of reported leaves with the planted set (ALL), membership (FIRST), absence of trails (DISABLE) and input_value reachability Plus policy-focused cases (forbidding / list-layout / flattened+forbidding models below containers). Sequences of the datum are also handed over as one-shot iterators / generators / map objects.",
         "text": "Exploration: nothing lost, duplicated or spurious in ALL mode; FIRST reports exactly one planted fault with its full trail; DISABLE attaches no trail; following each trail from the root reaches the reported input_value.",
         "note": "Trusted: the harness's layout model (renames, name_style, nested paths, list layout, ExtraForbid) and fault-site enumeration; strict coercion only; a union is one leaf.",
     },
@@ -103,12 +103,12 @@ CHECKS = {
         "note": "Trusted: the origins table transcription; overlap analysis (tspec.lax_safe).",
     },
     "C04": {
-        "technique": "property-based testing + coverage-guided fuzzing: (1) Hypothesis-generated type expressions x data soup (arbitrary data and near-valid mutations of valid dumps) x 6 modes with an exception-validity oracle, user-code sub-check for the second sentence; (2) Atheris / libFuzzer target (fuzz/c04_atheris.py): bytes -> table of generated loaders + recursively decoded datum, same oracle inside the target, saved cases re-run through the ordinary oracle Plus an exhaustive hostile-scalar table (type-aimed malformed strings and constructor-shaped data per scalar type, general hostile strings / numbers, an int above the int-to-str digit limit; bare / list element / dict value / dict key; 6 modes), ints above the digit limit planted into generated data, sets with unhashable element types, saturator layouts. Plus an exhaustive duck table: dict-layout models (first looked-up field optional / required) x root data that are mappings by one method only or not at all (object with get alone, re.Match, sqlite3.Row ...).",
+        "technique": "property-based testing + coverage-guided fuzzing: (1) Hypothesis-generated type expressions x data soup (arbitrary data and near-valid mutations of valid dumps) x 6 modes with an exception-validity oracle, user-code sub-check for the second sentence; (2) Atheris / libFuzzer target (fuzz/c04_atheris.py): bytes -> table of generated loaders + recursively decoded datum, same oracle inside the target, saved cases re-run through the ordinary oracle Plus an exhaustive hostile-scalar table (type-aimed malformed strings and constructor-shaped data per scalar type, general hostile strings / numbers, an int above the int-to-str digit limit; bare / list element / dict value / dict key; 6 modes), ints above the digit limit planted into generated data, sets with unhashable element types, saturator layouts. Plus an exhaustive duck table: dict-layout models (first looked-up field optional / required) x root data that are mappings by one method only or not at all (object with get alone, re.Match, sqlite3.Row ...). Class objects (dict, OrderedDict, collections.abc.Mapping, list ...) and deeply nested patterns are part of the data soup and of the duck table.",
         "text": "Exploration: every escaping exception tree must consist of LoadError nodes only; with user code raising ArithmeticError the escaping exception must not be classified as LoadError.",
         "note": "Trusted: exception flattening helper; input nesting capped (RecursionError on over-deep data not counted); ExtraKwargs excluded (documented TypeError zone).",
     },
     "C18": {
-        "technique": "property-based testing: Hypothesis-generated enum/flag classes x provider options, exhaustive enumeration of members / 2^n flag combinations / candidate representations per class against a 3-valued reference derived from the provider docstrings",
+        "technique": "property-based testing: Hypothesis-generated enum/flag classes x provider options, exhaustive enumeration of members / 2^n flag combinations / candidate representations per class against a 3-valued reference derived from the provider docstrings Candidates of flag_by_member_names also arrive as one-shot iterators, generators, views and deques; dumped name lists are edited in place between two dumps; flag bits beyond 32 / 53 / 64 bits.",
         "text": "Exploration: thousands of generated (class, provider, options) programs; per program every member, every OR-combination and ~100 candidate representations are enumerated; round-trip identity, dump injectivity, creation success and accept/reject agreement with an independent reference are asserted.",
         "note": "Trusted: Python's enum module, the harness's reference transcription of the provider docstrings; equal-but-differently-typed data, pseudo-members, alias names, custom _missing_ hits are unspecified (not asserted).",
     },
